@@ -11,8 +11,14 @@ starting from the empty state, with the executions running either the bare funct
 decorator (`b = true`) whose ttl is any `T` (in ticks).  Time steps are stutter steps for single-flight
 (`time_step_is_stutter`): the property has no ttl carve-out - an execution is joined while it is in flight however
 long it has been running (`old_execution_is_still_joined`), and for the bare decorator time steps can be erased
-from a trace altogether (`time_erasure_bare`).  The clock is read in one place only, by the cache decorator
-underneath: whether a stored result is still a hit for a call that found nothing in flight (`lookupCached`).
+from a trace altogether (`time_erasure_bare`).  The clock is read by the cache decorator underneath only: is a stored
+result still there / still fresh for a call that found nothing in flight (`look`), is the lock key still there.
+
+The configuration `cfg : Cfg` is arbitrary in every theorem: bare function, plain cache decorator, or `early` with any
+ttl / early_ttl, `background` or not.  `early`'s RECALCULATIONS - tasks that call the wrapped function again for a stale
+value, outside `tasks` - are part of the model (`recalcs`, `rtable`, `lock`, actions `rstep` / `rfinish`); the bound
+"one body per key at a time" (`body_running_count_le_one`) counts them, needs the per-key `recalculations` table of
+repair D44 (`cfg.guarded = true`) and fails without it (`recalculation_table_is_necessary`).
 
 An execution's outcome is one of three: it returned a value, raised an exception, or *ended cancelled*
 (`Outcome.cancelled`: the body's own await was cancelled underneath it - distinct from the cancellation of a
@@ -31,43 +37,47 @@ namespace CashewsVerif.Props.C07
 open CashewsVerif.SingleFlight
 
 /-- every reachable state satisfies the invariant -/
-theorem reachable_inv (b : Bool) (T : Nat) (tr : List Act) : Inv (run (init b T) tr) :=
-  inv_run _ (inv_init b T) tr
+theorem reachable_inv (cfg : Cfg) (tr : List Act) : Inv (run (init cfg) tr) :=
+  inv_run _ (inv_init cfg) tr
 
 /-- **At most one execution per key in flight**, for every interleaving: two unfinished executions of the
 same key are the same execution. -/
-theorem at_most_one_running (b : Bool) (T : Nat) (tr : List Act) (key e1 e2 : Nat)
-    (h1 : InFlight (run (init b T) tr) e1 key) (h2 : InFlight (run (init b T) tr) e2 key) : e1 = e2 :=
-  inflight_unique _ (reachable_inv b T tr) key e1 e2 h1 h2
+theorem at_most_one_running (cfg : Cfg) (tr : List Act) (key e1 e2 : Nat)
+    (h1 : InFlight (run (init cfg) tr) e1 key) (h2 : InFlight (run (init cfg) tr) e2 key) : e1 = e2 :=
+  inflight_unique _ (reachable_inv cfg tr) key e1 e2 h1 h2
 
 /-- The same as a counter (the quantity the harness observes and the driver prints): the number of
 executions in flight for a key never exceeds one. -/
-theorem running_count_le_one (b : Bool) (T : Nat) (tr : List Act) (key : Nat) :
-    inFlightCount (run (init b T) tr) key ≤ 1 := by
-  have h := reachable_inv b T tr
+theorem running_count_le_one (cfg : Cfg) (tr : List Act) (key : Nat) :
+    inFlightCount (run (init cfg) tr) key ≤ 1 := by
+  have h := reachable_inv cfg tr
   apply filter_length_le_one _ _ h.nodup
   intro a c _ _ ha hc
   exact inflight_unique _ h key a c ((inFlightB_iff _ _ _).1 ha) ((inFlightB_iff _ _ _).1 hc)
 
-/-- ... and so the wrapped body is never running twice at the same time for one key. -/
-theorem body_running_count_le_one (b : Bool) (T : Nat) (tr : List Act) (key : Nat) :
-    bodyRunningCount (run (init b T) tr) key ≤ 1 := by
-  have h := reachable_inv b T tr
-  apply filter_length_le_one _ _ h.nodup
-  intro a c _ _ ha hc
-  exact inflight_unique _ h key a c ((inFlightB_iff _ _ _).1 (bodyRunningB_imp _ _ _ ha))
-    ((inFlightB_iff _ _ _).1 (bodyRunningB_imp _ _ _ hc))
+/-- every reachable state of a configuration with the `recalculations` table satisfies the recalculation invariant -/
+theorem reachable_rinv (cfg : Cfg) (hg : cfg.guarded = true) (tr : List Act) : RInv (run (init cfg) tr) :=
+  rinv_run _ (inv_init cfg) (rinv_init cfg) hg tr
+
+/-- ... and so **the wrapped body is never running twice at the same time for one key** - counting the bodies run
+by executions (`tasks`) AND by `early`'s recalculations (background or awaited) together, in every reachable state:
+any interleaving of calls, body steps, completions, cancellations and time steps of any length, so that the lock
+key and the stored value may expire while a recalculation is still running.  (`cfg.guarded`: the `recalculations`
+table of D44 is there; `recalculation_table_is_necessary` shows that without it the bound fails.) -/
+theorem body_running_count_le_one (cfg : Cfg) (hg : cfg.guarded = true) (tr : List Act) (key : Nat) :
+    bodyRunningCount (run (init cfg) tr) key ≤ 1 :=
+  body_count_le_one _ (reachable_inv cfg tr) (reachable_rinv cfg hg tr) key
 
 /-- **A concurrent call joins.**  While `e` is in flight for `key`, a call with that key by a new caller
 starts nothing: the caller waits on `e`, the set of executions and the table are unchanged. -/
-theorem concurrent_call_joins (b : Bool) (T : Nat) (tr : List Act) (key e c n : Nat) (o : Outcome)
-    (he : InFlight (run (init b T) tr) e key) (hc : (run (init b T) tr).callers c = none) :
-    (step (run (init b T) tr) (.call c key n o)).callers c = some ⟨some e, .waiting⟩ ∧
-    (step (run (init b T) tr) (.call c key n o)).execs = (run (init b T) tr).execs ∧
-    (step (run (init b T) tr) (.call c key n o)).created = (run (init b T) tr).created ∧
-    (step (run (init b T) tr) (.call c key n o)).table = (run (init b T) tr).table := by
-  have h := reachable_inv b T tr
-  generalize run (init b T) tr = s at *
+theorem concurrent_call_joins (cfg : Cfg) (tr : List Act) (key e c n : Nat) (o : Outcome)
+    (he : InFlight (run (init cfg) tr) e key) (hc : (run (init cfg) tr).callers c = none) :
+    (step (run (init cfg) tr) (.call c key n o)).callers c = some ⟨some e, .waiting⟩ ∧
+    (step (run (init cfg) tr) (.call c key n o)).execs = (run (init cfg) tr).execs ∧
+    (step (run (init cfg) tr) (.call c key n o)).created = (run (init cfg) tr).created ∧
+    (step (run (init cfg) tr) (.call c key n o)).table = (run (init cfg) tr).table := by
+  have h := reachable_inv cfg tr
+  generalize run (init cfg) tr = s at *
   obtain ⟨x, hx, hk, hf⟩ := he
   have ht : s.table key = some e := by
     have := h.reg e x hx hf
@@ -80,15 +90,15 @@ theorem concurrent_call_joins (b : Bool) (T : Nat) (tr : List Act) (key e c n : 
 /-- **Every call attaches to an execution of its key.**  Whatever the state, a call by a new caller leaves
 the caller waiting on an execution that is in flight for exactly the key it called with - the one already
 there, or a new one when the key was free.  (Together with `at_most_one_running`: *the* execution.) -/
-theorem call_attaches (b : Bool) (T : Nat) (tr : List Act) (key c n : Nat) (o : Outcome)
-    (hc : (run (init b T) tr).callers c = none) :
-    ∃ e, (run (init b T) (tr ++ [.call c key n o])).callers c = some ⟨some e, .waiting⟩ ∧
-      InFlight (run (init b T) (tr ++ [.call c key n o])) e key := by
-  have h := reachable_inv b T tr
-  have e1 : run (init b T) (tr ++ [.call c key n o]) = step (run (init b T) tr) (.call c key n o) := by
+theorem call_attaches (cfg : Cfg) (tr : List Act) (key c n : Nat) (o : Outcome)
+    (hc : (run (init cfg) tr).callers c = none) :
+    ∃ e, (run (init cfg) (tr ++ [.call c key n o])).callers c = some ⟨some e, .waiting⟩ ∧
+      InFlight (run (init cfg) (tr ++ [.call c key n o])) e key := by
+  have h := reachable_inv cfg tr
+  have e1 : run (init cfg) (tr ++ [.call c key n o]) = step (run (init cfg) tr) (.call c key n o) := by
     rw [run_append]; rfl
   rw [e1]
-  generalize run (init b T) tr = s at *
+  generalize run (init cfg) tr = s at *
   cases ht : s.table key with
   | some e =>
     obtain ⟨x, hx, hk, hf⟩ := h.tab key e ht
@@ -96,22 +106,20 @@ theorem call_attaches (b : Bool) (T : Nat) (tr : List Act) (key c n : Nat) (o : 
     · simp
     · exact hx
   | none =>
-    refine ⟨c, ?_, newExec s key n o, ?_, ?_, ?_⟩
+    refine ⟨c, ?_, newExec s c key n o, ?_, newExec_key _ _ _ _ _, newExec_unfinished _ _ _ _ _⟩
     · simp only [step_call]; unfold stepCall; rw [hc, ht]; simp
     · simp only [step_call]; unfold stepCall; rw [hc, ht]; simp
-    · unfold newExec; split <;> rfl
-    · unfold newExec; split <;> rfl
 
 /-- **Waiters share the outcome.**  In every reachable state, a caller that joined (or started) execution
 `e` and was not cancelled is either still waiting on the *unfinished* `e`, or holds exactly `e`'s outcome -
 returned value, raised exception, or the `CancelledError` of an execution that ended cancelled - and `e` has
 finished.  In particular nobody is left waiting on a
 finished execution and nobody receives anything else. -/
-theorem waiters_share_outcome (b : Bool) (T : Nat) (tr : List Act) (c e : Nat) (st : CSt)
-    (hc : (run (init b T) tr).callers c = some ⟨some e, st⟩) (hnc : st ≠ .cancelled) :
-    ∃ x, (run (init b T) tr).execs e = some x ∧
+theorem waiters_share_outcome (cfg : Cfg) (tr : List Act) (c e : Nat) (st : CSt)
+    (hc : (run (init cfg) tr).callers c = some ⟨some e, st⟩) (hnc : st ≠ .cancelled) :
+    ∃ x, (run (init cfg) tr).execs e = some x ∧
       ((st = .waiting ∧ x.finished = false) ∨ (st = .got x.outcome ∧ x.finished = true)) := by
-  obtain ⟨x, hx, hok⟩ := (reachable_inv b T tr).joined c e st hc
+  obtain ⟨x, hx, hok⟩ := (reachable_inv cfg tr).joined c e st hc
   refine ⟨x, hx, ?_⟩
   rcases hok with h | h | h
   · exact absurd h hnc
@@ -120,30 +128,31 @@ theorem waiters_share_outcome (b : Bool) (T : Nat) (tr : List Act) (c e : Nat) (
 
 /-- The outcome a waiter receives is the one scripted when the execution was created: key, outcome and
 hit-flag of an execution never change, whatever happens later. -/
-theorem exec_script_fixed (b : Bool) (T : Nat) (tr tr2 : List Act) (e : Nat) (x : Exec)
-    (hx : (run (init b T) tr).execs e = some x) :
-    ∃ x', (run (init b T) (tr ++ tr2)).execs e = some x' ∧ x'.key = x.key ∧ x'.outcome = x.outcome ∧
+theorem exec_script_fixed (cfg : Cfg) (tr tr2 : List Act) (e : Nat) (x : Exec)
+    (hx : (run (init cfg) tr).execs e = some x) :
+    ∃ x', (run (init cfg) (tr ++ tr2)).execs e = some x' ∧ x'.key = x.key ∧ x'.outcome = x.outcome ∧
       x'.hit = x.hit ∧ (x.finished = true → x'.finished = true) := by
   rw [run_append]
-  obtain ⟨x', hx', h1, h2, h3, h4, _⟩ := exec_run _ (reachable_inv b T tr) tr2 e x hx
+  obtain ⟨x', hx', h1, h2, h3, h4, _⟩ := exec_run _ (reachable_inv cfg tr) tr2 e x hx
   exact ⟨x', hx', h1, h2, h3, h4⟩
 
 /-- **Completion fans out and clears the table.**  When an unfinished execution with no suspension point left
 finishes (with any outcome - a value, an exception, or ended cancelled): every caller waiting on it receives its outcome, every other caller is untouched, its key becomes
 free and no other key is affected. -/
-theorem finish_delivers (b : Bool) (T : Nat) (tr : List Act) (e : Nat) (x : Exec)
-    (hx : (run (init b T) tr).execs e = some x) (hf : x.finished = false) (hr : x.remaining = 0) :
-    (∀ c, (run (init b T) tr).callers c = some ⟨some e, .waiting⟩ →
-        (step (run (init b T) tr) (.finish e)).callers c = some ⟨some e, .got x.outcome⟩) ∧
-    (∀ c, (run (init b T) tr).callers c ≠ some ⟨some e, .waiting⟩ →
-        (step (run (init b T) tr) (.finish e)).callers c = (run (init b T) tr).callers c) ∧
-    (step (run (init b T) tr) (.finish e)).table x.key = none ∧
-    (∀ k, k ≠ x.key → (step (run (init b T) tr) (.finish e)).table k = (run (init b T) tr).table k) := by
-  generalize run (init b T) tr = s at *
+theorem finish_delivers (cfg : Cfg) (tr : List Act) (e : Nat) (x : Exec)
+    (hx : (run (init cfg) tr).execs e = some x) (hf : x.finished = false) (hr : x.remaining = 0)
+    (hb : blocked (run (init cfg) tr) x = false) :
+    (∀ c, (run (init cfg) tr).callers c = some ⟨some e, .waiting⟩ →
+        (step (run (init cfg) tr) (.finish e)).callers c = some ⟨some e, .got x.outcome⟩) ∧
+    (∀ c, (run (init cfg) tr).callers c ≠ some ⟨some e, .waiting⟩ →
+        (step (run (init cfg) tr) (.finish e)).callers c = (run (init cfg) tr).callers c) ∧
+    (step (run (init cfg) tr) (.finish e)).table x.key = none ∧
+    (∀ k, k ≠ x.key → (step (run (init cfg) tr) (.finish e)).table k = (run (init cfg) tr).table k) := by
+  generalize run (init cfg) tr = s at *
   simp only [step_finish]
   unfold stepFinish
   rw [hx]
-  simp only [hf, hr, Bool.false_eq_true, ne_eq, not_true_eq_false, or_self, if_false]
+  simp only [hf, hr, hb, Bool.false_eq_true, ne_eq, not_true_eq_false, or_self, if_false]
   refine ⟨?_, ?_, by simp, fun k hk => by simp [upd_apply, hk]⟩
   · intro c hc
     rcases deliver_cases s.callers e x.outcome c with ⟨_, h2⟩ | ⟨h1, _⟩
@@ -157,28 +166,29 @@ theorem finish_delivers (b : Bool) (T : Nat) (tr : List Act) (e : Nat) (x : Exec
 /-- **After the completion the key is free** - after ANY completion: `x.outcome` is arbitrary (returned, raised,
 ended cancelled; `cancelled_execution_is_over` spells the last case out): the next call with that key (by any new caller) starts a new
 execution - distinct from the finished one, in flight, with the caller waiting on it. -/
-theorem table_cleared_on_finish (b : Bool) (T : Nat) (tr : List Act) (e : Nat) (x : Exec)
-    (hx : (run (init b T) tr).execs e = some x) (hf : x.finished = false) (hr : x.remaining = 0)
-    (c n : Nat) (o : Outcome) (hc : (run (init b T) (tr ++ [.finish e])).callers c = none) :
-    (run (init b T) (tr ++ [.finish e])).table x.key = none ∧
+theorem table_cleared_on_finish (cfg : Cfg) (tr : List Act) (e : Nat) (x : Exec)
+    (hx : (run (init cfg) tr).execs e = some x) (hf : x.finished = false) (hr : x.remaining = 0)
+    (hb : blocked (run (init cfg) tr) x = false)
+    (c n : Nat) (o : Outcome) (hc : (run (init cfg) (tr ++ [.finish e])).callers c = none) :
+    (run (init cfg) (tr ++ [.finish e])).table x.key = none ∧
     c ≠ e ∧
-    InFlight (run (init b T) (tr ++ [.finish e, .call c x.key n o])) c x.key ∧
-    (run (init b T) (tr ++ [.finish e, .call c x.key n o])).callers c = some ⟨some c, .waiting⟩ ∧
-    (∃ x', (run (init b T) (tr ++ [.finish e, .call c x.key n o])).execs e = some x' ∧ x'.finished = true) := by
-  have hfin := (finish_delivers b T tr e x hx hf hr).2.2.1
-  have hinv := reachable_inv b T (tr ++ [.finish e])
-  have e1 : run (init b T) (tr ++ [.finish e]) = step (run (init b T) tr) (.finish e) := by
+    InFlight (run (init cfg) (tr ++ [.finish e, .call c x.key n o])) c x.key ∧
+    (run (init cfg) (tr ++ [.finish e, .call c x.key n o])).callers c = some ⟨some c, .waiting⟩ ∧
+    (∃ x', (run (init cfg) (tr ++ [.finish e, .call c x.key n o])).execs e = some x' ∧ x'.finished = true) := by
+  have hfin := (finish_delivers cfg tr e x hx hf hr hb).2.2.1
+  have hinv := reachable_inv cfg (tr ++ [.finish e])
+  have e1 : run (init cfg) (tr ++ [.finish e]) = step (run (init cfg) tr) (.finish e) := by
     rw [run_append]; rfl
-  have e2 : run (init b T) (tr ++ [.finish e, .call c x.key n o]) =
-      step (run (init b T) (tr ++ [.finish e])) (.call c x.key n o) := by
+  have e2 : run (init cfg) (tr ++ [.finish e, .call c x.key n o]) =
+      step (run (init cfg) (tr ++ [.finish e])) (.call c x.key n o) := by
     rw [run_append, run_append]; rfl
   rw [← e1] at hfin
-  have hex : ∃ x', (run (init b T) (tr ++ [.finish e])).execs e = some x' ∧ x'.finished = true := by
+  have hex : ∃ x', (run (init cfg) (tr ++ [.finish e])).execs e = some x' ∧ x'.finished = true := by
     rw [e1]
-    show ∃ x', (stepFinish (run (init b T) tr) e).execs e = some x' ∧ _
+    show ∃ x', (stepFinish (run (init cfg) tr) e).execs e = some x' ∧ _
     unfold stepFinish
     rw [hx]
-    simp only [hf, hr, Bool.false_eq_true, ne_eq, not_true_eq_false, or_self, if_false]
+    simp only [hf, hr, hb, Bool.false_eq_true, ne_eq, not_true_eq_false, or_self, if_false]
     exact ⟨_, if_pos rfl, rfl⟩
   have hce : c ≠ e := by
     intro hh
@@ -186,12 +196,12 @@ theorem table_cleared_on_finish (b : Bool) (T : Nat) (tr : List Act) (e : Nat) (
     obtain ⟨x', hx', _⟩ := hex
     exact hinv.fresh c (by rw [hx']; simp) hc
   rw [e2]
-  generalize run (init b T) (tr ++ [.finish e]) = s at *
+  generalize run (init cfg) (tr ++ [.finish e]) = s at *
   refine ⟨hfin, hce, ?_, ?_, ?_⟩
   · show InFlight (stepCall s c x.key n o) c x.key
     unfold stepCall
     rw [hc, hfin]
-    refine ⟨newExec s x.key n o, by simp, ?_, ?_⟩ <;> (unfold newExec; split <;> rfl)
+    exact ⟨newExec s c x.key n o, by simp, newExec_key _ _ _ _ _, newExec_unfinished _ _ _ _ _⟩
   · show (stepCall s c x.key n o).callers c = _
     unfold stepCall
     rw [hc, hfin]
@@ -204,22 +214,22 @@ theorem table_cleared_on_finish (b : Bool) (T : Nat) (tr : List Act) (e : Nat) (
 same cache key - however they differ in what the key template leaves out (a per-request session, ...) - made
 one after the other from any reachable state end up waiting on one and the same in-flight execution of that
 key, and the second call starts nothing. -/
-theorem same_cache_key_shares (b : Bool) (T : Nat) (tr : List Act) (c1 c2 n1 n2 : Nat) (o1 o2 : Outcome) (a1 a2 : Args)
+theorem same_cache_key_shares (cfg : Cfg) (tr : List Act) (c1 c2 n1 n2 : Nat) (o1 o2 : Outcome) (a1 a2 : Args)
     (hk : cacheKey a1 = cacheKey a2) (h12 : c2 ≠ c1)
-    (h1 : (run (init b T) tr).callers c1 = none) (h2 : (run (init b T) tr).callers c2 = none) :
-    ∃ e, (run (init b T) (tr ++ [.callWith c1 a1 n1 o1, .callWith c2 a2 n2 o2])).callers c1 = some ⟨some e, .waiting⟩ ∧
-      (run (init b T) (tr ++ [.callWith c1 a1 n1 o1, .callWith c2 a2 n2 o2])).callers c2 = some ⟨some e, .waiting⟩ ∧
-      InFlight (run (init b T) (tr ++ [.callWith c1 a1 n1 o1, .callWith c2 a2 n2 o2])) e (cacheKey a1) ∧
-      (run (init b T) (tr ++ [.callWith c1 a1 n1 o1, .callWith c2 a2 n2 o2])).created =
-        (run (init b T) (tr ++ [.callWith c1 a1 n1 o1])).created := by
-  obtain ⟨e, he1, hfl⟩ := call_attaches b T tr (cacheKey a1) c1 n1 o1 h1
-  have e1 : run (init b T) (tr ++ [.call c1 (cacheKey a1) n1 o1]) = step (run (init b T) tr) (.call c1 (cacheKey a1) n1 o1) := by
+    (h1 : (run (init cfg) tr).callers c1 = none) (h2 : (run (init cfg) tr).callers c2 = none) :
+    ∃ e, (run (init cfg) (tr ++ [.callWith c1 a1 n1 o1, .callWith c2 a2 n2 o2])).callers c1 = some ⟨some e, .waiting⟩ ∧
+      (run (init cfg) (tr ++ [.callWith c1 a1 n1 o1, .callWith c2 a2 n2 o2])).callers c2 = some ⟨some e, .waiting⟩ ∧
+      InFlight (run (init cfg) (tr ++ [.callWith c1 a1 n1 o1, .callWith c2 a2 n2 o2])) e (cacheKey a1) ∧
+      (run (init cfg) (tr ++ [.callWith c1 a1 n1 o1, .callWith c2 a2 n2 o2])).created =
+        (run (init cfg) (tr ++ [.callWith c1 a1 n1 o1])).created := by
+  obtain ⟨e, he1, hfl⟩ := call_attaches cfg tr (cacheKey a1) c1 n1 o1 h1
+  have e1 : run (init cfg) (tr ++ [.call c1 (cacheKey a1) n1 o1]) = step (run (init cfg) tr) (.call c1 (cacheKey a1) n1 o1) := by
     rw [run_append]; rfl
-  have h2' : (run (init b T) (tr ++ [.call c1 (cacheKey a1) n1 o1])).callers c2 = none := by
+  have h2' : (run (init cfg) (tr ++ [.call c1 (cacheKey a1) n1 o1])).callers c2 = none := by
     rw [e1, call_other_caller _ c1 c2 _ _ _ h12]; exact h2
-  obtain ⟨j1, j2, j3, _⟩ := concurrent_call_joins b T (tr ++ [.call c1 (cacheKey a1) n1 o1]) (cacheKey a1) e c2 n2 o2 hfl h2'
-  have e2 : run (init b T) (tr ++ [.callWith c1 a1 n1 o1, .callWith c2 a2 n2 o2]) =
-      step (run (init b T) (tr ++ [.call c1 (cacheKey a1) n1 o1])) (.call c2 (cacheKey a1) n2 o2) := by
+  obtain ⟨j1, j2, j3, _⟩ := concurrent_call_joins cfg (tr ++ [.call c1 (cacheKey a1) n1 o1]) (cacheKey a1) e c2 n2 o2 hfl h2'
+  have e2 : run (init cfg) (tr ++ [.callWith c1 a1 n1 o1, .callWith c2 a2 n2 o2]) =
+      step (run (init cfg) (tr ++ [.call c1 (cacheKey a1) n1 o1])) (.call c2 (cacheKey a1) n2 o2) := by
     rw [run_append, run_append]
     show step (step _ (.call c1 (cacheKey a1) n1 o1)) (.call c2 (cacheKey a2) n2 o2) = _
     rw [← hk]; rfl
@@ -235,35 +245,36 @@ theorem same_cache_key_shares (b : Bool) (T : Nat) (tr : List Act) (c1 c2 n1 n2 
 free, nothing is stored in the cache, and the next call with that key - by any new caller - starts a new
 execution that runs that call's own script (or is a cache hit of an earlier stored value), with the caller
 waiting on it. -/
-theorem cancelled_execution_is_over (b : Bool) (T : Nat) (tr : List Act) (e : Nat) (x : Exec)
-    (hx : (run (init b T) tr).execs e = some x) (hf : x.finished = false) (hr : x.remaining = 0)
+theorem cancelled_execution_is_over (cfg : Cfg) (tr : List Act) (e : Nat) (x : Exec)
+    (hx : (run (init cfg) tr).execs e = some x) (hf : x.finished = false) (hr : x.remaining = 0)
+    (hb : blocked (run (init cfg) tr) x = false)
     (ho : x.outcome = .cancelled) :
-    (∀ c, (run (init b T) tr).callers c = some ⟨some e, .waiting⟩ →
-        (run (init b T) (tr ++ [.finish e])).callers c = some ⟨some e, .got .cancelled⟩) ∧
-    (run (init b T) (tr ++ [.finish e])).table x.key = none ∧
-    (run (init b T) (tr ++ [.finish e])).cached = (run (init b T) tr).cached ∧
-    (∀ c n o, (run (init b T) (tr ++ [.finish e])).callers c = none →
-      c ≠ e ∧ InFlight (run (init b T) (tr ++ [.finish e, .call c x.key n o])) c x.key ∧
-      (run (init b T) (tr ++ [.finish e, .call c x.key n o])).callers c = some ⟨some c, .waiting⟩ ∧
-      (run (init b T) (tr ++ [.finish e, .call c x.key n o])).execs c =
-        some (newExec (run (init b T) (tr ++ [.finish e])) x.key n o)) := by
-  have e1 : run (init b T) (tr ++ [.finish e]) = step (run (init b T) tr) (.finish e) := by
+    (∀ c, (run (init cfg) tr).callers c = some ⟨some e, .waiting⟩ →
+        (run (init cfg) (tr ++ [.finish e])).callers c = some ⟨some e, .got .cancelled⟩) ∧
+    (run (init cfg) (tr ++ [.finish e])).table x.key = none ∧
+    (run (init cfg) (tr ++ [.finish e])).cached = (run (init cfg) tr).cached ∧
+    (∀ c n o, (run (init cfg) (tr ++ [.finish e])).callers c = none →
+      c ≠ e ∧ InFlight (run (init cfg) (tr ++ [.finish e, .call c x.key n o])) c x.key ∧
+      (run (init cfg) (tr ++ [.finish e, .call c x.key n o])).callers c = some ⟨some c, .waiting⟩ ∧
+      (run (init cfg) (tr ++ [.finish e, .call c x.key n o])).execs c =
+        some (newExec (run (init cfg) (tr ++ [.finish e])) c x.key n o)) := by
+  have e1 : run (init cfg) (tr ++ [.finish e]) = step (run (init cfg) tr) (.finish e) := by
     rw [run_append]; rfl
-  obtain ⟨d1, _, d3, _⟩ := finish_delivers b T tr e x hx hf hr
+  obtain ⟨d1, _, d3, _⟩ := finish_delivers cfg tr e x hx hf hr hb
   refine ⟨?_, ?_, ?_, ?_⟩
   · intro c hc
     rw [e1, d1 c hc, ho]
   · rw [e1]; exact d3
   · rw [e1]
-    show (stepFinish (run (init b T) tr) e).cached = _
+    show (stepFinish (run (init cfg) tr) e).cached = _
     unfold stepFinish
     rw [hx]
-    simp only [hf, hr, Bool.false_eq_true, ne_eq, not_true_eq_false, or_self, if_false, ho]
+    simp only [hf, hr, hb, Bool.false_eq_true, ne_eq, not_true_eq_false, or_self, if_false, ho]
   · intro c n o hc
-    obtain ⟨t1, t2, t3, t4, _⟩ := table_cleared_on_finish b T tr e x hx hf hr c n o hc
+    obtain ⟨t1, t2, t3, t4, _⟩ := table_cleared_on_finish cfg tr e x hx hf hr hb c n o hc
     refine ⟨t2, t3, t4, ?_⟩
-    have e2 : run (init b T) (tr ++ [.finish e, .call c x.key n o]) =
-        step (run (init b T) (tr ++ [.finish e])) (.call c x.key n o) := by
+    have e2 : run (init cfg) (tr ++ [.finish e, .call c x.key n o]) =
+        step (run (init cfg) (tr ++ [.finish e])) (.call c x.key n o) := by
       rw [run_append, run_append]; rfl
     rw [e2]
     show (stepCall _ c x.key n o).execs c = _
@@ -274,21 +285,31 @@ theorem cancelled_execution_is_over (b : Bool) (T : Nat) (tr : List Act) (e : Na
 /-- **A finished execution is never joined** - whatever its outcome (returned, raised, ended cancelled) and
 whatever happens afterwards: a caller found attached to `e` at any later point was already attached to `e`
 when `e` had just finished.  (No later call is ever treated as a waiter of an execution that is over.) -/
-theorem finished_execution_gains_no_waiters (b : Bool) (T : Nat) (tr tr2 : List Act) (e : Nat) (x : Exec)
-    (hx : (run (init b T) tr).execs e = some x) (hf : x.finished = true) (c : Nat) (st : CSt)
-    (hc : (run (init b T) (tr ++ tr2)).callers c = some ⟨some e, st⟩) :
-    ∃ st', (run (init b T) tr).callers c = some ⟨some e, st'⟩ := by
+theorem finished_execution_gains_no_waiters (cfg : Cfg) (tr tr2 : List Act) (e : Nat) (x : Exec)
+    (hx : (run (init cfg) tr).execs e = some x) (hf : x.finished = true) (c : Nat) (st : CSt)
+    (hc : (run (init cfg) (tr ++ tr2)).callers c = some ⟨some e, st⟩) :
+    ∃ st', (run (init cfg) tr).callers c = some ⟨some e, st'⟩ := by
   rw [run_append] at hc
-  exact finished_no_new_waiters _ (reachable_inv b T tr) tr2 e x hx hf c st hc
+  exact finished_no_new_waiters _ (reachable_inv cfg tr) tr2 e x hx hf c st hc
 
 /-- **Cancellation is local (one step, any state whatsoever).**  Cancelling caller `c` changes no other
-caller's entry, no execution (none is stopped, none loses a step), not the table, not the cache. -/
+caller's entry, no execution (none is stopped, none loses a step), not the table, not the cache - and no
+recalculation: whether `c` started it (a background recalculation survives every caller) or waits for it through
+its execution (a joiner is cancelled alone), the recalculation keeps running, stays in `recalculations`, the lock
+key stays. -/
 theorem cancellation_is_local (s : SfSt) (c : Nat) :
     (step s (.cancel c)).table = s.table ∧ (step s (.cancel c)).execs = s.execs ∧
     (step s (.cancel c)).cached = s.cached ∧ (step s (.cancel c)).created = s.created ∧
-    (∀ c', c' ≠ c → (step s (.cancel c)).callers c' = s.callers c') := by
+    (∀ c', c' ≠ c → (step s (.cancel c)).callers c' = s.callers c') ∧
+    (step s (.cancel c)).recalcs = s.recalcs ∧ (step s (.cancel c)).rtable = s.rtable ∧
+    (step s (.cancel c)).lock = s.lock ∧ (step s (.cancel c)).rcreated = s.rcreated ∧
+    (∀ key, bodyRunningCount (step s (.cancel c)) key = bodyRunningCount s key) := by
   obtain ⟨_, h2, h3, h4, h5, h6, _⟩ := cancel_frame s c
-  exact ⟨h2, h3, h4, h5, h6⟩
+  have hr : Rest (step s (.cancel c)) s := stepCancel_rest s c
+  refine ⟨h2, h3, h4, h5, h6, hr.recalcs, hr.rtable, hr.lock, hr.rcreated, ?_⟩
+  intro key
+  unfold bodyRunningCount bodyRunningB recalcRunningB
+  rw [h3, h5, hr.recalcs, hr.rcreated]
 
 /-- what the cancellation does to the cancelled caller itself: a waiting caller becomes cancelled (and stays
 attached to nothing else); a caller that already holds an outcome keeps it -/
@@ -308,28 +329,30 @@ theorem cancel_marks_only_waiting (s : SfSt) (c : Nat) (e : Option Nat) :
 "affects only that caller").  Take any history `tr1` after which caller `c` has made its call, and any
 continuation `tr2` (more calls, steps, completions, further cancellations).  Running `tr2` after cancelling
 `c` and running it without the cancellation lead to the same executions (same progress, same completions -
-even if `c` was the last waiter, the execution still runs to its end), the same table and cache, and the
+even if `c` was the last waiter, the execution still runs to its end), the same recalculations, the same tables and cache, and the
 same state for every other caller: each of them receives exactly what it would have received. -/
-theorem cancellation_noninterference (b : Bool) (T : Nat) (tr1 tr2 : List Act) (c : Nat)
-    (hc : (run (init b T) tr1).callers c ≠ none) :
-    (run (init b T) (tr1 ++ .cancel c :: tr2)).execs = (run (init b T) (tr1 ++ tr2)).execs ∧
-    (run (init b T) (tr1 ++ .cancel c :: tr2)).table = (run (init b T) (tr1 ++ tr2)).table ∧
-    (run (init b T) (tr1 ++ .cancel c :: tr2)).cached = (run (init b T) (tr1 ++ tr2)).cached ∧
-    (run (init b T) (tr1 ++ .cancel c :: tr2)).created = (run (init b T) (tr1 ++ tr2)).created ∧
-    (∀ c', c' ≠ c → (run (init b T) (tr1 ++ .cancel c :: tr2)).callers c' = (run (init b T) (tr1 ++ tr2)).callers c') := by
+theorem cancellation_noninterference (cfg : Cfg) (tr1 tr2 : List Act) (c : Nat)
+    (hc : (run (init cfg) tr1).callers c ≠ none) :
+    (run (init cfg) (tr1 ++ .cancel c :: tr2)).execs = (run (init cfg) (tr1 ++ tr2)).execs ∧
+    (run (init cfg) (tr1 ++ .cancel c :: tr2)).table = (run (init cfg) (tr1 ++ tr2)).table ∧
+    (run (init cfg) (tr1 ++ .cancel c :: tr2)).cached = (run (init cfg) (tr1 ++ tr2)).cached ∧
+    (run (init cfg) (tr1 ++ .cancel c :: tr2)).created = (run (init cfg) (tr1 ++ tr2)).created ∧
+    (∀ c', c' ≠ c → (run (init cfg) (tr1 ++ .cancel c :: tr2)).callers c' = (run (init cfg) (tr1 ++ tr2)).callers c') ∧
+    (run (init cfg) (tr1 ++ .cancel c :: tr2)).recalcs = (run (init cfg) (tr1 ++ tr2)).recalcs ∧
+    (run (init cfg) (tr1 ++ .cancel c :: tr2)).rtable = (run (init cfg) (tr1 ++ tr2)).rtable := by
   rw [run_append, run_append, run_cons]
-  generalize run (init b T) tr1 = s at *
+  generalize run (init cfg) tr1 = s at *
   obtain ⟨h1, h2, h3, h4, h5, h6, h7⟩ := cancel_frame s c
   have ag : Agree c (step s (.cancel c)) s :=
-    ⟨h1, h2, h3, h4, h5, h6, h7, hc, (stepCancel_clock s c).1, (stepCancel_clock s c).2⟩
+    ⟨h1, h2, h3, h4, h5, h6, h7, hc, (stepCancel_clock s c).1, (stepCancel_clock s c).2, stepCancel_rest s c⟩
   have := agree_run c _ _ ag tr2
-  exact ⟨this.execs, this.table, this.cached, this.created, this.others⟩
+  exact ⟨this.execs, this.table, this.cached, this.created, this.others, this.rest.recalcs, this.rest.rtable⟩
 
 /-- A delivered outcome (or a cancellation) is final: no later action - in particular no later cancellation
 of anybody - changes what a caller has received. -/
-theorem delivered_outcome_is_final (b : Bool) (T : Nat) (tr tr2 : List Act) (c : Nat) (e : Option Nat) (st : CSt)
-    (hc : (run (init b T) tr).callers c = some ⟨e, st⟩) (hst : st ≠ .waiting) :
-    (run (init b T) (tr ++ tr2)).callers c = some ⟨e, st⟩ := by
+theorem delivered_outcome_is_final (cfg : Cfg) (tr tr2 : List Act) (c : Nat) (e : Option Nat) (st : CSt)
+    (hc : (run (init cfg) tr).callers c = some ⟨e, st⟩) (hst : st ≠ .waiting) :
+    (run (init cfg) (tr ++ tr2)).callers c = some ⟨e, st⟩ := by
   rw [run_append]
   exact settled_run _ tr2 c e st hc hst
 
@@ -338,23 +361,24 @@ an opaque payload (everything else a caller can see of the exception object: con
 attributes, cause).  When an execution that raises `exc cls p` completes, every caller waiting on it - the one that
 started it and every joiner alike - holds `exc cls p`: same class, same payload; nothing is rebuilt, copied or
 wrapped on the way. -/
-theorem exception_delivered_unchanged (b : Bool) (T : Nat) (tr : List Act) (e : Nat) (x : Exec) (cls p : Nat)
-    (hx : (run (init b T) tr).execs e = some x) (hf : x.finished = false) (hr : x.remaining = 0)
-    (ho : x.outcome = .exc cls p) (c : Nat) (hc : (run (init b T) tr).callers c = some ⟨some e, .waiting⟩) :
-    (run (init b T) (tr ++ [.finish e])).callers c = some ⟨some e, .got (.exc cls p)⟩ := by
-  have e1 : run (init b T) (tr ++ [.finish e]) = step (run (init b T) tr) (.finish e) := by
+theorem exception_delivered_unchanged (cfg : Cfg) (tr : List Act) (e : Nat) (x : Exec) (cls p : Nat)
+    (hx : (run (init cfg) tr).execs e = some x) (hf : x.finished = false) (hr : x.remaining = 0)
+    (hb : blocked (run (init cfg) tr) x = false)
+    (ho : x.outcome = .exc cls p) (c : Nat) (hc : (run (init cfg) tr).callers c = some ⟨some e, .waiting⟩) :
+    (run (init cfg) (tr ++ [.finish e])).callers c = some ⟨some e, .got (.exc cls p)⟩ := by
+  have e1 : run (init cfg) (tr ++ [.finish e]) = step (run (init cfg) tr) (.finish e) := by
     rw [run_append]; rfl
-  rw [e1, (finish_delivers b T tr e x hx hf hr).1 c hc, ho]
+  rw [e1, (finish_delivers cfg tr e x hx hf hr hb).1 c hc, ho]
 
 /-- **All waiters of one execution hold the same thing**, in every reachable state: two callers attached to the same
 execution that have both received something have received the same outcome - the execution's own (for an
 exception: the same class and the same payload). -/
-theorem waiters_receive_the_same (b : Bool) (T : Nat) (tr : List Act) (c1 c2 e : Nat) (o1 o2 : Outcome)
-    (h1 : (run (init b T) tr).callers c1 = some ⟨some e, .got o1⟩)
-    (h2 : (run (init b T) tr).callers c2 = some ⟨some e, .got o2⟩) :
-    o1 = o2 ∧ ∃ x, (run (init b T) tr).execs e = some x ∧ x.outcome = o1 := by
-  obtain ⟨x, hx, hok⟩ := waiters_share_outcome b T tr c1 e _ h1 (by simp)
-  obtain ⟨y, hy, hok'⟩ := waiters_share_outcome b T tr c2 e _ h2 (by simp)
+theorem waiters_receive_the_same (cfg : Cfg) (tr : List Act) (c1 c2 e : Nat) (o1 o2 : Outcome)
+    (h1 : (run (init cfg) tr).callers c1 = some ⟨some e, .got o1⟩)
+    (h2 : (run (init cfg) tr).callers c2 = some ⟨some e, .got o2⟩) :
+    o1 = o2 ∧ ∃ x, (run (init cfg) tr).execs e = some x ∧ x.outcome = o1 := by
+  obtain ⟨x, hx, hok⟩ := waiters_share_outcome cfg tr c1 e _ h1 (by simp)
+  obtain ⟨y, hy, hok'⟩ := waiters_share_outcome cfg tr c2 e _ h2 (by simp)
   rw [hx] at hy
   simp only [Option.some.injEq] at hy
   subst hy
@@ -385,23 +409,23 @@ theorem time_step_is_stutter (s : SfSt) (d : Nat) :
 is not bounded by the decorator's ttl `T` or by anything else) while `e` is still running.  A call with that key
 by a new caller then waits on `e` and starts nothing: the executions, their number and the table are exactly
 what they were before the time passed. -/
-theorem old_execution_is_still_joined (b : Bool) (T : Nat) (tr : List Act) (key e : Nat) (ds : List Nat)
+theorem old_execution_is_still_joined (cfg : Cfg) (tr : List Act) (key e : Nat) (ds : List Nat)
     (c n : Nat) (o : Outcome)
-    (he : InFlight (run (init b T) tr) e key) (hc : (run (init b T) tr).callers c = none) :
-    (run (init b T) (tr ++ ds.map Act.tick ++ [.call c key n o])).callers c = some ⟨some e, .waiting⟩ ∧
-    (run (init b T) (tr ++ ds.map Act.tick ++ [.call c key n o])).execs = (run (init b T) tr).execs ∧
-    (run (init b T) (tr ++ ds.map Act.tick ++ [.call c key n o])).created = (run (init b T) tr).created ∧
-    (run (init b T) (tr ++ ds.map Act.tick ++ [.call c key n o])).table = (run (init b T) tr).table ∧
-    (run (init b T) (tr ++ ds.map Act.tick ++ [.call c key n o])).now = (run (init b T) tr).now + ds.sum := by
-  obtain ⟨_, _, f3, f4, f5, _, f7, f8⟩ := run_ticks_frame (run (init b T) tr) ds
-  have e0 : run (init b T) (tr ++ ds.map Act.tick) = run (run (init b T) tr) (ds.map Act.tick) := run_append _ _ _
-  have he' : InFlight (run (init b T) (tr ++ ds.map Act.tick)) e key := by
+    (he : InFlight (run (init cfg) tr) e key) (hc : (run (init cfg) tr).callers c = none) :
+    (run (init cfg) (tr ++ ds.map Act.tick ++ [.call c key n o])).callers c = some ⟨some e, .waiting⟩ ∧
+    (run (init cfg) (tr ++ ds.map Act.tick ++ [.call c key n o])).execs = (run (init cfg) tr).execs ∧
+    (run (init cfg) (tr ++ ds.map Act.tick ++ [.call c key n o])).created = (run (init cfg) tr).created ∧
+    (run (init cfg) (tr ++ ds.map Act.tick ++ [.call c key n o])).table = (run (init cfg) tr).table ∧
+    (run (init cfg) (tr ++ ds.map Act.tick ++ [.call c key n o])).now = (run (init cfg) tr).now + ds.sum := by
+  obtain ⟨_, _, f3, f4, f5, _, f7, f8, _⟩ := run_ticks_frame (run (init cfg) tr) ds
+  have e0 : run (init cfg) (tr ++ ds.map Act.tick) = run (run (init cfg) tr) (ds.map Act.tick) := run_append _ _ _
+  have he' : InFlight (run (init cfg) (tr ++ ds.map Act.tick)) e key := by
     obtain ⟨x, hx, hk, hf⟩ := he
     exact ⟨x, by rw [e0, f4]; exact hx, hk, hf⟩
-  have hc' : (run (init b T) (tr ++ ds.map Act.tick)).callers c = none := by rw [e0, f5]; exact hc
-  obtain ⟨j1, j2, j3, j4⟩ := concurrent_call_joins b T (tr ++ ds.map Act.tick) key e c n o he' hc'
-  have e1 : run (init b T) (tr ++ ds.map Act.tick ++ [.call c key n o]) =
-      step (run (init b T) (tr ++ ds.map Act.tick)) (.call c key n o) := by
+  have hc' : (run (init cfg) (tr ++ ds.map Act.tick)).callers c = none := by rw [e0, f5]; exact hc
+  obtain ⟨j1, j2, j3, j4⟩ := concurrent_call_joins cfg (tr ++ ds.map Act.tick) key e c n o he' hc'
+  have e1 : run (init cfg) (tr ++ ds.map Act.tick ++ [.call c key n o]) =
+      step (run (init cfg) (tr ++ ds.map Act.tick)) (.call c key n o) := by
     rw [run_append]; rfl
   rw [e1]
   refine ⟨j1, by rw [j2, e0, f4], by rw [j3, e0, f7], by rw [j4, e0, f3], ?_⟩
@@ -410,7 +434,7 @@ theorem old_execution_is_still_joined (b : Bool) (T : Nat) (tr : List Act) (key 
   unfold stepCall
   rw [hc']
   obtain ⟨x, hx, hk, hf⟩ := he'
-  have ht := (reachable_inv b T (tr ++ ds.map Act.tick)).reg e x hx hf
+  have ht := (reachable_inv cfg (tr ++ ds.map Act.tick)).reg e x hx hf
   rw [hk] at ht
   rw [ht]
 
@@ -420,19 +444,116 @@ the same executions created - time steps are invisible to single-flight, whereve
 they are.  (With a cache decorator underneath the clock is read in one place only - whether a stored result is
 still a hit when a call finds nothing in flight, `lookupCached` - which is the cache's business, C02.) -/
 theorem time_erasure_bare (T : Nat) (tr : List Act) :
-    (run (init false T) tr).table = (run (init false T) (untimed tr)).table ∧
-    (run (init false T) tr).execs = (run (init false T) (untimed tr)).execs ∧
-    (run (init false T) tr).callers = (run (init false T) (untimed tr)).callers ∧
-    (run (init false T) tr).created = (run (init false T) (untimed tr)).created := by
-  have h := untimed_run (init false T) (init false T) ⟨rfl, rfl, rfl, rfl, rfl, rfl, rfl⟩ rfl tr
+    (run (init (.plain false T)) tr).table = (run (init (.plain false T)) (untimed tr)).table ∧
+    (run (init (.plain false T)) tr).execs = (run (init (.plain false T)) (untimed tr)).execs ∧
+    (run (init (.plain false T)) tr).callers = (run (init (.plain false T)) (untimed tr)).callers ∧
+    (run (init (.plain false T)) tr).created = (run (init (.plain false T)) (untimed tr)).created := by
+  have h := untimed_run (init (.plain false T)) (init (.plain false T)) ⟨rfl, rfl, rfl, rfl, rfl, rfl, rfl, rest_refl _, fun _ => rfl⟩ rfl tr
   exact ⟨h.table, h.execs, h.callers, h.created⟩
+
+/-! ### `early`: recalculations -/
+
+/-- **A caller joined to a recalculation receives the recalculation's result or exception, unchanged.**  An
+execution may await a recalculation instead of running the body itself (a cold miss while the recalculation of the
+key is running: `await asyncio.shield(recalculation)`; `background=False`: `await task`).  In every reachable state
+a caller attached to such an execution and not cancelled is either still waiting - the execution has not ended - or
+holds exactly the outcome of THAT recalculation (for an exception: same class, same payload), and the
+recalculation has ended. -/
+theorem recalculation_outcome_shared (cfg : Cfg) (hg : cfg.guarded = true) (tr : List Act) (c e r : Nat) (st : CSt)
+    (x : Exec) (hc : (run (init cfg) tr).callers c = some ⟨some e, st⟩) (hnc : st ≠ .cancelled)
+    (hx : (run (init cfg) tr).execs e = some x) (hw : x.waitsOn = some r) :
+    ∃ y, (run (init cfg) tr).recalcs r = some y ∧ y.key = x.key ∧
+      ((st = .waiting ∧ x.finished = false) ∨ (st = .got y.outcome ∧ y.finished = true)) := by
+  obtain ⟨y, hy, hk, ho, hfin⟩ := (reachable_rinv cfg hg tr).waits e x r hx hw
+  obtain ⟨x', hx', hok⟩ := waiters_share_outcome cfg tr c e st hc hnc
+  rw [hx] at hx'
+  simp only [Option.some.injEq] at hx'
+  subst hx'
+  refine ⟨y, hy, hk, ?_⟩
+  rcases hok with h | ⟨h1, h2⟩
+  · exact Or.inl h
+  · exact Or.inr ⟨by rw [ho]; exact h1, hfin h2⟩
+
+/-- **A cold miss while the recalculation of the key is running joins it.**  The stored value has expired, nothing
+is in flight in `tasks`, recalculation `r` of the key is still running: a call starts an execution that runs no body -
+it awaits `r` and will deliver `r`'s outcome; no recalculation is started, the bodies running are the same. -/
+theorem cold_miss_joins_recalculation (cfg : Cfg) (hg : cfg.guarded = true) (tr : List Act) (key r c n : Nat)
+    (o : Outcome) (y : Exec) (hy : (run (init cfg) tr).recalcs r = some y) (hk : y.key = key) (hf : y.finished = false)
+    (ht : (run (init cfg) tr).table key = none) (hc : (run (init cfg) tr).callers c = none)
+    (hl : look (run (init cfg) tr) key = .cold) :
+    (step (run (init cfg) tr) (.call c key n o)).execs c = some ⟨key, 0, y.outcome, false, true, some r⟩ ∧
+    (step (run (init cfg) tr) (.call c key n o)).callers c = some ⟨some c, .waiting⟩ ∧
+    (step (run (init cfg) tr) (.call c key n o)).recalcs = (run (init cfg) tr).recalcs ∧
+    (step (run (init cfg) tr) (.call c key n o)).rcreated = (run (init cfg) tr).rcreated := by
+  have hrt := (reachable_rinv cfg hg tr).rreg r y hy hf
+  have hg' : (run (init cfg) tr).guarded = true := by rw [guarded_run]; exact hg
+  rw [hk] at hrt
+  generalize run (init cfg) tr = s at *
+  have hsp : spawns s key = false := by unfold spawns; rw [hl]
+  have hne : newExec s c key n o = ⟨key, 0, y.outcome, false, true, some r⟩ := by
+    unfold newExec running
+    rw [hl, hg']
+    simp only [if_true, hrt, hy]
+  simp only [step_call]
+  unfold stepCall
+  rw [hc, ht]
+  simp only [hsp, Bool.false_eq_true, if_false, hne, upd_same]
+  exact ⟨trivial, trivial, trivial, trivial⟩
+
+/-- **A stale hit while the recalculation of the key is running starts nothing** - however long that recalculation
+has been running, in particular after its lock key (which lives `early_ttl` only) has expired: the call is served
+the stored value, no second recalculation is started. -/
+theorem stale_hit_while_recalculating_starts_nothing (cfg : Cfg) (hg : cfg.guarded = true) (tr : List Act)
+    (key r c n v : Nat) (o : Outcome) (hr : Recalculating (run (init cfg) tr) r key)
+    (ht : (run (init cfg) tr).table key = none) (hc : (run (init cfg) tr).callers c = none)
+    (hl : look (run (init cfg) tr) key = .stale v) :
+    (step (run (init cfg) tr) (.call c key n o)).execs c = some (hitExec key v) ∧
+    (step (run (init cfg) tr) (.call c key n o)).recalcs = (run (init cfg) tr).recalcs ∧
+    (step (run (init cfg) tr) (.call c key n o)).rcreated = (run (init cfg) tr).rcreated ∧
+    (step (run (init cfg) tr) (.call c key n o)).rtable = (run (init cfg) tr).rtable := by
+  obtain ⟨y, hy, hk, hf⟩ := hr
+  have hrt := (reachable_rinv cfg hg tr).rreg r y hy hf
+  have hg' : (run (init cfg) tr).guarded = true := by rw [guarded_run]; exact hg
+  rw [hk] at hrt
+  generalize run (init cfg) tr = s at *
+  have hsp : spawns s key = false := by
+    unfold spawns running
+    rw [hl, hg']
+    simp [hrt]
+  have hne : newExec s c key n o = hitExec key v := by
+    unfold newExec
+    rw [hl]
+    simp [hsp]
+  simp only [step_call]
+  unfold stepCall
+  rw [hc, ht]
+  simp only [hsp, Bool.false_eq_true, if_false, hne, upd_same]
+  exact ⟨trivial, trivial, trivial, trivial⟩
+
+/-- the replay of D44: ttl 24 ticks, early_ttl 8.  Call 1 stores 7 at tick 0.  Tick 9: the value is stale, call 2 is
+served 7 and starts a recalculation (two suspension points, lock key until tick 17).  Tick 18: still stale, the lock
+key is gone - call 3.  Tick 27: the stored value is gone - call 4. -/
+def d44 : List Act :=
+  [.call 1 0 0 (.ret 7), .finish 1, .tick 9, .call 2 0 2 (.ret 8), .finish 2,
+   .tick 9, .call 3 0 1 (.ret 9), .finish 3, .tick 9, .call 4 0 1 (.exc 3 4)]
+
+def earlyCfg (guarded background : Bool) : Cfg :=
+  { caching := true, ttl := 24, early := true, earlyTtl := 8, background := background, guarded := guarded }
+
+/-- **The `recalculations` table is necessary.**  Without it (`guarded := false`: `early` as it was before D44,
+with only the lock key of lifetime `early_ttl`) the bound of `body_running_count_le_one` fails: on the history `d44`
+call 3 starts a second recalculation while the first is running, and call 4 runs the body in its execution while
+both are still running - three bodies of one key at the same time. -/
+theorem recalculation_table_is_necessary :
+    ∃ cfg tr key, cfg.guarded = false ∧ 1 < bodyRunningCount (run (init cfg) tr) key :=
+  ⟨earlyCfg false true, d44, 0, rfl, by decide⟩
 
 /-- The scheduler granularity the harness drives (bursts of released tasks followed by the completion of
 every body that has no suspension point left) only produces traces of the transition system, so every
 theorem above applies to every state the correspondence check compares. -/
-theorem bursts_are_traces (b : Bool) (T : Nat) (bursts : List (List Act)) :
-    ∃ tr, bursts.foldl macroStep (init b T) = run (init b T) tr :=
-  macro_run (init b T) bursts
+theorem bursts_are_traces (cfg : Cfg) (bursts : List (List Act)) :
+    ∃ tr, bursts.foldl macroStep (init cfg) = run (init cfg) tr :=
+  macro_run (init cfg) bursts
 
 /-! ### non-vacuity: the model does something, the premises are satisfiable -/
 
@@ -441,95 +562,136 @@ def demo : List Act :=
   [.call 1 0 2 (.ret 7), .call 2 0 0 (.ret 8), .call 4 1 1 (.exc 3 0), .bodyStep 1, .call 3 0 5 (.ret 9)]
 
 -- caller 2 and 3 joined execution 1 (their own scripts are not run); key 1 runs separately
-example : (run (init false 8) demo).callers 3 = some ⟨some 1, .waiting⟩ := by decide
-example : (run (init false 8) demo).created = [1, 4] := by decide
-example : inFlightCount (run (init false 8) demo) 0 = 1 ∧ inFlightCount (run (init false 8) demo) 1 = 1 := by decide
-example : InFlight (run (init false 8) demo) 1 0 := ⟨⟨0, 1, .ret 7, false, false⟩, by decide, rfl, rfl⟩
+example : (run (init (.plain false 8)) demo).callers 3 = some ⟨some 1, .waiting⟩ := by decide
+example : (run (init (.plain false 8)) demo).created = [1, 4] := by decide
+example : inFlightCount (run (init (.plain false 8)) demo) 0 = 1 ∧ inFlightCount (run (init (.plain false 8)) demo) 1 = 1 := by decide
+example : InFlight (run (init (.plain false 8)) demo) 1 0 := ⟨⟨0, 1, .ret 7, false, false, none⟩, by decide, rfl, rfl⟩
 -- premises of `concurrent_call_joins` / `call_attaches`
-example : (run (init false 8) demo).callers 5 = none := by decide
+example : (run (init (.plain false 8)) demo).callers 5 = none := by decide
 
 /-- ... caller 2 is cancelled, the body passes its last point and finishes -/
 def demo2 : List Act := demo ++ [.cancel 2, .bodyStep 1, .finish 1]
 
 -- waiters 1 and 3 hold execution 1's outcome, the cancelled caller 2 does not; key 0 is free again
-example : (run (init false 8) demo2).callers 1 = some ⟨some 1, .got (.ret 7)⟩ := by decide
-example : (run (init false 8) demo2).callers 3 = some ⟨some 1, .got (.ret 7)⟩ := by decide
-example : (run (init false 8) demo2).callers 2 = some ⟨some 1, .cancelled⟩ := by decide
-example : (run (init false 8) demo2).table 0 = none ∧ (run (init false 8) demo2).table 1 = some 4 := by decide
-example : inFlightCount (run (init false 8) demo2) 0 = 0 := by decide
+example : (run (init (.plain false 8)) demo2).callers 1 = some ⟨some 1, .got (.ret 7)⟩ := by decide
+example : (run (init (.plain false 8)) demo2).callers 3 = some ⟨some 1, .got (.ret 7)⟩ := by decide
+example : (run (init (.plain false 8)) demo2).callers 2 = some ⟨some 1, .cancelled⟩ := by decide
+example : (run (init (.plain false 8)) demo2).table 0 = none ∧ (run (init (.plain false 8)) demo2).table 1 = some 4 := by decide
+example : inFlightCount (run (init (.plain false 8)) demo2) 0 = 0 := by decide
 -- premises of `finish_delivers` / `table_cleared_on_finish` just before the completion
-example : (run (init false 8) (demo ++ [.cancel 2, .bodyStep 1])).execs 1 = some ⟨0, 0, .ret 7, false, false⟩ := by decide
+example : (run (init (.plain false 8)) (demo ++ [.cancel 2, .bodyStep 1])).execs 1 = some ⟨0, 0, .ret 7, false, false, none⟩ := by decide
 -- a later call on key 0 starts a new execution (5), which then raises to its caller
-example : (run (init false 8) (demo2 ++ [.call 5 0 0 (.exc 1 0), .finish 5])).callers 5 = some ⟨some 5, .got (.exc 1 0)⟩ := by
+example : (run (init (.plain false 8)) (demo2 ++ [.call 5 0 0 (.exc 1 0), .finish 5])).callers 5 = some ⟨some 5, .got (.exc 1 0)⟩ := by
   decide
 -- an exception fans out to every waiter
-example : (run (init false 8) [.call 1 0 0 (.exc 2 0), .call 2 0 0 (.ret 1), .finish 1]).callers 2
+example : (run (init (.plain false 8)) [.call 1 0 0 (.exc 2 0), .call 2 0 0 (.ret 1), .finish 1]).callers 2
     = some ⟨some 1, .got (.exc 2 0)⟩ := by decide
 -- the only waiter is cancelled: the execution still runs to its end, clears the table and fills the cache
-example : (run (init true 8) [.call 1 0 1 (.ret 7), .cancel 1, .bodyStep 1, .finish 1]).cached 0 = some (7, 8) ∧
-    (run (init true 8) [.call 1 0 1 (.ret 7), .cancel 1, .bodyStep 1, .finish 1]).table 0 = none ∧
-    (run (init true 8) [.call 1 0 1 (.ret 7), .cancel 1, .bodyStep 1, .finish 1]).callers 1 = some ⟨some 1, .cancelled⟩ := by
+example : (run (init (.plain true 8)) [.call 1 0 1 (.ret 7), .cancel 1, .bodyStep 1, .finish 1]).cached 0 = some (7, 0, 8) ∧
+    (run (init (.plain true 8)) [.call 1 0 1 (.ret 7), .cancel 1, .bodyStep 1, .finish 1]).table 0 = none ∧
+    (run (init (.plain true 8)) [.call 1 0 1 (.ret 7), .cancel 1, .bodyStep 1, .finish 1]).callers 1 = some ⟨some 1, .cancelled⟩ := by
   decide
 -- with a cache decorator a later call is a hit: a new execution that runs no body and delivers the stored value
-example : (run (init true 8) [.call 1 0 0 (.ret 7), .finish 1, .call 2 0 3 (.ret 9)]).execs 2
-    = some ⟨0, 0, .ret 7, false, true⟩ := by decide
-example : bodyStarts (run (init true 8) [.call 1 0 0 (.ret 7), .finish 1, .call 2 0 3 (.ret 9), .finish 2]) 0 = 1 := by
+example : (run (init (.plain true 8)) [.call 1 0 0 (.ret 7), .finish 1, .call 2 0 3 (.ret 9)]).execs 2
+    = some ⟨0, 0, .ret 7, false, true, none⟩ := by decide
+example : bodyStarts (run (init (.plain true 8)) [.call 1 0 0 (.ret 7), .finish 1, .call 2 0 3 (.ret 9), .finish 2]) 0 = 1 := by
   decide
 -- premise of `cancellation_noninterference` and a run where the two sides are visibly the same for caller 3
-example : (run (init false 8) demo).callers 2 ≠ none := by decide
-example : (run (init false 8) (demo ++ [.bodyStep 1, .finish 1])).callers 3 = some ⟨some 1, .got (.ret 7)⟩ := by decide
+example : (run (init (.plain false 8)) demo).callers 2 ≠ none := by decide
+example : (run (init (.plain false 8)) (demo ++ [.bodyStep 1, .finish 1])).callers 3 = some ⟨some 1, .got (.ret 7)⟩ := by decide
 -- bursts: two callers released together on an execution without suspension points share it
-example : (macroStep (init false 8) [.call 1 0 0 (.ret 7), .call 2 0 0 (.ret 8)]).callers 2
+example : (macroStep (init (.plain false 8)) [.call 1 0 0 (.ret 7), .call 2 0 0 (.ret 8)]).callers 2
     = some ⟨some 1, .got (.ret 7)⟩ := by decide
 
 -- an execution that ENDS CANCELLED (outcome `cancelled`, nobody cancelled a caller): both waiters receive
 -- CancelledError, the key is free, and the next call starts execution 3 which delivers its own result
 def demoK : List Act := [.call 1 0 1 .cancelled, .call 2 0 0 (.ret 8), .bodyStep 1, .finish 1]
-example : (run (init true 8) demoK).callers 1 = some ⟨some 1, .got .cancelled⟩ ∧
-    (run (init true 8) demoK).callers 2 = some ⟨some 1, .got .cancelled⟩ ∧
-    (run (init true 8) demoK).table 0 = none ∧ (run (init true 8) demoK).cached 0 = none := by decide
-example : (run (init true 8) (demoK ++ [.call 3 0 0 (.ret 9), .call 4 0 0 (.ret 5), .finish 3])).callers 3
+example : (run (init (.plain true 8)) demoK).callers 1 = some ⟨some 1, .got .cancelled⟩ ∧
+    (run (init (.plain true 8)) demoK).callers 2 = some ⟨some 1, .got .cancelled⟩ ∧
+    (run (init (.plain true 8)) demoK).table 0 = none ∧ (run (init (.plain true 8)) demoK).cached 0 = none := by decide
+example : (run (init (.plain true 8)) (demoK ++ [.call 3 0 0 (.ret 9), .call 4 0 0 (.ret 5), .finish 3])).callers 3
       = some ⟨some 3, .got (.ret 9)⟩ ∧
-    (run (init true 8) (demoK ++ [.call 3 0 0 (.ret 9), .call 4 0 0 (.ret 5), .finish 3])).callers 4
+    (run (init (.plain true 8)) (demoK ++ [.call 3 0 0 (.ret 9), .call 4 0 0 (.ret 5), .finish 3])).callers 4
       = some ⟨some 3, .got (.ret 9)⟩ ∧
-    bodyStarts (run (init true 8) (demoK ++ [.call 3 0 0 (.ret 9), .call 4 0 0 (.ret 5), .finish 3])) 0 = 2 := by decide
+    bodyStarts (run (init (.plain true 8)) (demoK ++ [.call 3 0 0 (.ret 9), .call 4 0 0 (.ret 5), .finish 3])) 0 = 2 := by decide
 -- premises of `cancelled_execution_is_over` just before the completion
-example : (run (init true 8) [.call 1 0 1 .cancelled, .call 2 0 0 (.ret 8), .bodyStep 1]).execs 1
-    = some ⟨0, 0, .cancelled, false, false⟩ := by decide
+example : (run (init (.plain true 8)) [.call 1 0 1 .cancelled, .call 2 0 0 (.ret 8), .bodyStep 1]).execs 1
+    = some ⟨0, 0, .cancelled, false, false, none⟩ := by decide
 -- premises of `finished_execution_gains_no_waiters`: execution 1 is finished in `demoK`, caller 3 arrives later
-example : (run (init true 8) demoK).execs 1 = some ⟨0, 0, .cancelled, true, false⟩ := by decide
+example : (run (init (.plain true 8)) demoK).execs 1 = some ⟨0, 0, .cancelled, true, false, none⟩ := by decide
 -- calls that differ only in the argument the key template leaves out share one execution; a different key does not
-example : (run (init true 8) [.callWith 1 ⟨7, 100⟩ 1 (.ret 1), .callWith 2 ⟨7, 200⟩ 1 (.ret 2), .callWith 3 ⟨8, 100⟩ 1 (.ret 3)]).callers 2
+example : (run (init (.plain true 8)) [.callWith 1 ⟨7, 100⟩ 1 (.ret 1), .callWith 2 ⟨7, 200⟩ 1 (.ret 2), .callWith 3 ⟨8, 100⟩ 1 (.ret 3)]).callers 2
     = some ⟨some 1, .waiting⟩ := by decide
-example : (run (init true 8) [.callWith 1 ⟨7, 100⟩ 1 (.ret 1), .callWith 2 ⟨7, 200⟩ 1 (.ret 2), .callWith 3 ⟨8, 100⟩ 1 (.ret 3)]).created
+example : (run (init (.plain true 8)) [.callWith 1 ⟨7, 100⟩ 1 (.ret 1), .callWith 2 ⟨7, 200⟩ 1 (.ret 2), .callWith 3 ⟨8, 100⟩ 1 (.ret 3)]).created
     = [1, 3] := by decide
 -- premises of `same_cache_key_shares`
-example : cacheKey ⟨7, 100⟩ = cacheKey ⟨7, 200⟩ ∧ (run (init true 8) []).callers 1 = none := by decide
+example : cacheKey ⟨7, 100⟩ = cacheKey ⟨7, 200⟩ ∧ (run (init (.plain true 8)) []).callers 1 = none := by decide
 
 -- TIME.  ttl 8; execution 1 starts at instant 0 and is still running at instant 20 (> ttl): caller 2 joins it,
 -- nothing new is created; then the body finishes and both hold its result
 def demoT : List Act := [.call 1 0 1 (.ret 7), .tick 5, .tick 15, .call 2 0 0 (.ret 8)]
-example : (run (init true 8) demoT).callers 2 = some ⟨some 1, .waiting⟩ ∧ (run (init true 8) demoT).created = [1] ∧
-    (run (init true 8) demoT).now = 20 ∧ inFlightCount (run (init true 8) demoT) 0 = 1 := by decide
-example : (run (init true 8) (demoT ++ [.bodyStep 1, .finish 1])).callers 2 = some ⟨some 1, .got (.ret 7)⟩ ∧
-    (run (init true 8) (demoT ++ [.bodyStep 1, .finish 1])).cached 0 = some (7, 28) := by decide
+example : (run (init (.plain true 8)) demoT).callers 2 = some ⟨some 1, .waiting⟩ ∧ (run (init (.plain true 8)) demoT).created = [1] ∧
+    (run (init (.plain true 8)) demoT).now = 20 ∧ inFlightCount (run (init (.plain true 8)) demoT) 0 = 1 := by decide
+example : (run (init (.plain true 8)) (demoT ++ [.bodyStep 1, .finish 1])).callers 2 = some ⟨some 1, .got (.ret 7)⟩ ∧
+    (run (init (.plain true 8)) (demoT ++ [.bodyStep 1, .finish 1])).cached 0 = some (7, 20, 28) := by decide
 -- premises of `old_execution_is_still_joined` with ds = [5, 15], 5 + 15 > ttl
-example : InFlight (run (init true 8) [.call 1 0 1 (.ret 7)]) 1 0 := ⟨⟨0, 1, .ret 7, false, false⟩, by decide, rfl, rfl⟩
-example : (run (init true 8) [.call 1 0 1 (.ret 7)]).callers 2 = none ∧ [5, 15].sum > 8 := by decide
+example : InFlight (run (init (.plain true 8)) [.call 1 0 1 (.ret 7)]) 1 0 := ⟨⟨0, 1, .ret 7, false, false, none⟩, by decide, rfl, rfl⟩
+example : (run (init (.plain true 8)) [.call 1 0 1 (.ret 7)]).callers 2 = none ∧ [5, 15].sum > 8 := by decide
 -- the clock is read by the cache decorator only: the result stored at instant 20 is a hit at 27 and gone at 28
-example : (run (init true 8) (demoT ++ [.bodyStep 1, .finish 1, .tick 7, .call 3 0 2 (.ret 9)])).execs 3
-    = some ⟨0, 0, .ret 7, false, true⟩ := by decide
-example : (run (init true 8) (demoT ++ [.bodyStep 1, .finish 1, .tick 8, .call 3 0 2 (.ret 9)])).execs 3
-    = some ⟨0, 2, .ret 9, false, false⟩ := by decide
+example : (run (init (.plain true 8)) (demoT ++ [.bodyStep 1, .finish 1, .tick 7, .call 3 0 2 (.ret 9)])).execs 3
+    = some ⟨0, 0, .ret 7, false, true, none⟩ := by decide
+example : (run (init (.plain true 8)) (demoT ++ [.bodyStep 1, .finish 1, .tick 8, .call 3 0 2 (.ret 9)])).execs 3
+    = some ⟨0, 2, .ret 9, false, false, none⟩ := by decide
 -- erasing the time steps of a bare trace
 example : untimed demoT = [.call 1 0 1 (.ret 7), .call 2 0 0 (.ret 8)] := by decide
 -- EXCEPTIONS carry a payload: starter and joiner both hold class 3 with payload 41 - and agree
-example : (run (init false 8) [.call 1 0 0 (.exc 3 41), .call 2 0 0 (.exc 3 42), .finish 1]).callers 1
+example : (run (init (.plain false 8)) [.call 1 0 0 (.exc 3 41), .call 2 0 0 (.exc 3 42), .finish 1]).callers 1
       = some ⟨some 1, .got (.exc 3 41)⟩ ∧
-    (run (init false 8) [.call 1 0 0 (.exc 3 41), .call 2 0 0 (.exc 3 42), .finish 1]).callers 2
+    (run (init (.plain false 8)) [.call 1 0 0 (.exc 3 41), .call 2 0 0 (.exc 3 42), .finish 1]).callers 2
       = some ⟨some 1, .got (.exc 3 41)⟩ := by decide
 -- premises of `exception_delivered_unchanged`
-example : (run (init false 8) [.call 1 0 0 (.exc 3 41), .call 2 0 0 (.exc 3 42)]).execs 1
-    = some ⟨0, 0, .exc 3 41, false, false⟩ := by decide
+example : (run (init (.plain false 8)) [.call 1 0 0 (.exc 3 41), .call 2 0 0 (.exc 3 42)]).execs 1
+    = some ⟨0, 0, .exc 3 41, false, false, none⟩ := by decide
+
+-- EARLY.  The history of D44 without the table: two bodies after call 3, three after call 4 ...
+example : bodyRunningCount (run (init (earlyCfg false true)) (d44.take 8)) 0 = 2 := by decide
+example : bodyRunningCount (run (init (earlyCfg false true)) d44) 0 = 3 := by decide
+-- ... and with it: call 2 is served the stale 7 and starts recalculation 2; call 3 is served 7 and starts nothing;
+-- call 4 (cold miss) awaits recalculation 2; one body throughout
+example : (run (init (earlyCfg true true)) d44).callers 2 = some ⟨some 2, .got (.ret 7)⟩ ∧
+    (run (init (earlyCfg true true)) d44).callers 3 = some ⟨some 3, .got (.ret 7)⟩ ∧
+    (run (init (earlyCfg true true)) d44).execs 4 = some ⟨0, 0, .ret 8, false, true, some 2⟩ ∧
+    (run (init (earlyCfg true true)) d44).rcreated = [2] ∧
+    bodyRunningCount (run (init (earlyCfg true true)) d44) 0 = 1 ∧ bodyStarts (run (init (earlyCfg true true)) d44) 0 = 2 := by
+  decide
+-- the lock key set at tick 9 has expired at tick 18, the recalculation is still registered
+example : lockHeld (run (init (earlyCfg true true)) (d44.take 6)) 0 = false ∧
+    (run (init (earlyCfg true true)) (d44.take 6)).rtable 0 = some 2 := by decide
+-- the recalculation ends: the joined caller 4 receives ITS result 8 (not its own script's exception), caller 5 joins
+-- execution 4 meanwhile and receives the same; the new value is stored with fresh deadlines; table and lock are free
+def d44end : List Act := d44 ++ [.call 5 0 0 (.ret 1), .rstep 2, .cancel 5, .rstep 2, .rfinish 2, .finish 4]
+example : (run (init (earlyCfg true true)) d44end).callers 4 = some ⟨some 4, .got (.ret 8)⟩ ∧
+    (run (init (earlyCfg true true)) d44end).callers 5 = some ⟨some 4, .cancelled⟩ ∧
+    (run (init (earlyCfg true true)) d44end).cached 0 = some (8, 35, 51) ∧
+    (run (init (earlyCfg true true)) d44end).rtable 0 = none ∧ (run (init (earlyCfg true true)) d44end).lock 0 = none ∧
+    bodyRunningCount (run (init (earlyCfg true true)) d44end) 0 = 0 := by decide
+-- an execution that awaits a recalculation cannot end before it (`finish 4` is not enabled while 2 runs)
+example : enabled (run (init (earlyCfg true true)) d44) (.finish 4) = false ∧
+    enabled (run (init (earlyCfg true true)) (d44 ++ [.rstep 2, .rstep 2, .rfinish 2])) (.finish 4) = true := by decide
+-- premises of `cold_miss_joins_recalculation` (before call 4) and `stale_hit_while_recalculating_starts_nothing` (before call 3)
+example : look (run (init (earlyCfg true true)) (d44.take 9)) 0 = .cold ∧
+    (run (init (earlyCfg true true)) (d44.take 9)).recalcs 2 = some ⟨0, 2, .ret 8, false, false, none⟩ ∧
+    (run (init (earlyCfg true true)) (d44.take 9)).table 0 = none := by decide
+example : look (run (init (earlyCfg true true)) (d44.take 6)) 0 = .stale 7 := by decide
+-- background=False: the execution that starts the recalculation awaits it and delivers ITS outcome (an exception here,
+-- class 3 payload 2) to the caller and to a caller that joined meanwhile; nothing is stored, the stale value stays
+def fg : List Act :=
+  [.call 1 0 0 (.ret 7), .finish 1, .tick 9, .call 2 0 1 (.exc 3 2), .call 3 0 0 (.ret 9), .rstep 2, .rfinish 2, .finish 2]
+example : (run (init (earlyCfg true false)) fg).callers 2 = some ⟨some 2, .got (.exc 3 2)⟩ ∧
+    (run (init (earlyCfg true false)) fg).callers 3 = some ⟨some 2, .got (.exc 3 2)⟩ ∧
+    (run (init (earlyCfg true false)) fg).cached 0 = some (7, 8, 24) ∧
+    bodyStarts (run (init (earlyCfg true false)) fg) 0 = 2 := by decide
+-- premises of `recalculation_outcome_shared`
+example : (run (init (earlyCfg true false)) (fg.take 5)).execs 2 = some ⟨0, 0, .exc 3 2, false, true, some 2⟩ := by decide
 
 end CashewsVerif.Props.C07
